@@ -1607,7 +1607,7 @@ def xt_setup(inp, rng):
             mpo = None if (L == 1 and per) else MPO.ising(L, J, g, bc="periodic" if per else "open")
         else:
             Jx, Jy, Jz = coup(rng), coup(rng), coup(rng)
-            h = 0.0 if rng.random() < 0.25 else coup(rng)
+            h = 0.0 if (inp.get("h0") or rng.random() < 0.25) else coup(rng)
             H = spin_h(L, bonds, {"X": Jx, "Y": Jy, "Z": Jz}, {"Z": h})
             one = lambda dt: cl.create_heisenberg_circuit(L, Jx, Jy, Jz, h, dt, 1, periodic=per)  # noqa: E731
             many = lambda T, N: cl.create_heisenberg_circuit(L, Jx, Jy, Jz, h, T / N, N, periodic=per)  # noqa: E731
@@ -1636,7 +1636,7 @@ def xt_setup(inp, rng):
             req = lambda dt: f"circ ising2d {R} {C} 1 | {ib.fracs([J, g, dt])}"  # noqa: E731
         else:
             Jx, Jy, Jz = coup(rng), coup(rng), coup(rng)
-            h = 0.0 if rng.random() < 0.25 else coup(rng)
+            h = 0.0 if (inp.get("h0") or rng.random() < 0.25) else coup(rng)
             H = spin_h(nq, bonds, {"X": Jx, "Y": Jy, "Z": Jz}, {"Z": h})
             one = lambda dt: cl.create_2d_heisenberg_circuit(R, C, Jx, Jy, Jz, h, dt, 1)  # noqa: E731
             many = lambda T, N: cl.create_2d_heisenberg_circuit(R, C, Jx, Jy, Jz, h, T / N, N)  # noqa: E731
@@ -1756,7 +1756,7 @@ def run_trotter_deriv(inp):
                 G1 = np.zeros((dim, dim), dtype=complex)
                 for ops, c in g1:
                     G1 += c * pauli_le(ops, nq)
-                xt_spec(f"{what} |U^N - exp(-iNG)|", float(np.linalg.norm(Ureal - sla.expm(-1j * N * G1), 2)), N * s1 * s1 * math.exp(s1))
+                xt_spec(f"{what} |U^N - exp(-iNG)|", float(np.linalg.norm(UN - sla.expm(-1j * N * G1), 2)), N * s1 * s1 * math.exp(s1))
         gerrs.append(float(np.linalg.norm(UN - Uex, 2)))
     detail += f"; N-step errors {gerrs[0]:.2e} {gerrs[1]:.2e} {gerrs[2]:.2e} (T={T:.3f}, N={n0},{2 * n0},{4 * n0})"
     if gerrs[0] < 1e-9:  # commuting terms: exact at every step count
